@@ -251,6 +251,15 @@ func (r *Report) Explore(cfg Config, body Body) *PartStats {
 	if cfg.StopAfterViolations == 0 {
 		cfg.StopAfterViolations = 8
 	}
+	if cfg.Budget == 0 {
+		// a bound on every part, so that no registered command runs away: 75 minutes (VERIF_PART_BUDGET_MIN
+		// overrides; 0 = none). A part that hits it ends with exit 0, exhaustive:false and the cap on record.
+		min := 75
+		if v := os.Getenv("VERIF_PART_BUDGET_MIN"); v != "" {
+			fmt.Sscanf(v, "%d", &min)
+		}
+		cfg.Budget = time.Duration(min) * time.Minute
+	}
 	shardI, shardN := Shard()
 	if cfg.SplitDepth == 0 {
 		cfg.SplitDepth = 4
